@@ -413,7 +413,7 @@ pub fn run(ctx: &Ctx) {
          tuple of the schema'd relation conforms. Non-trivial = a batch mixing conforming and non-conforming tuples. Distinct = case JSON.",
     );
     ctx.assume("the documented type table is the contract; integer-in-float-column and int8-vector-in-vector-column are left open");
-    ctx.run_part("schema_enforcement", ctx.cases(1500, 30_000), || tape_strategy(200).prop_map(|t| decode(&t)), |c, o| check(ctx, c, o));
+    ctx.run_part("schema_enforcement", ctx.cases(6000, 90_000), || tape_strategy(200).prop_map(|t| decode(&t)), |c, o| check(ctx, c, o));
 }
 
 pub fn replay(ctx: &Ctx, part: &str, case: &J) -> Option<Result<CheckResult, String>> {
